@@ -585,6 +585,25 @@ def r06_5(chk, repo):
     chk.ob("R06.5", MC, q, "the scaling by the spacing is skipped for the unit spacing (1, 1, 1) only", bool(sc) and
            all(any(c.key() == "numpy.array_equal(spacing, (tuple (1 1 1)))" and not pol for c, pol in e.guards) or not any("array_equal" in c.key() for c, _ in e.guards)
                for e in sc), fingerprint="unit-spacing", found=[str(c)[:80] for c in skip])
+    # fmt/cube.py: the other caller of the mesher with a spacing of its own -- voxel step k is the length of grid axis k, i.e. of ROW k of the basis
+    if repo.exists("fmt/cube.py"):
+        cb = repo.module("fmt/cube.py")
+        if "CubeData.isosurface" in cb.funcs:
+            cev = cb.ev("CubeData.isosurface")
+            chk.saw("fmt/cube.py", "CubeData.isosurface")
+            mcs = [e for e in cev.events if e.kind == "call" and (call_name(e.value.as_atom() or ()) or "").endswith("marching_cubes")]
+            sp = dict(mcs[0].extra["kwargs"]).get("spacing") if mcs else None
+            oksp = False
+            if sp is not None:
+                it_ = seq_items(sp)
+                if it_ and len(it_) == 3:
+                    oksp = [x.key() for x in it_] == [f"numpy.linalg.norm(self.{ax}_basis)" for ax in "xyz"] or \
+                        [x.key() for x in it_] == [f"numpy.linalg.norm(self.basis[{k}])" for k in range(3)]
+                else:
+                    oksp = sp.key() in ("numpy.linalg.norm(self.basis, axis=1)", "numpy.sqrt(numpy.sum(self.basis**2, axis=1))")
+            chk.ob("R06.5", "fmt/cube.py", "CubeData.isosurface", "the spacing handed to the mesher lists the lengths of the grid axes in array-axis order "
+                   "(the rows x_basis, y_basis, z_basis of the basis; its columns are Cartesian components)", oksp, fingerprint="cube:spacing",
+                   node=mcs[0].node if mcs else None, expected="(|x_basis|, |y_basis|, |z_basis|) = norm(basis, axis=1)", found=str(sp)[:160])
     # surface.py
     sf = repo.module(SF)
     if "smooth_laplacian" in sf.funcs:
@@ -697,7 +716,8 @@ def r06_5(chk, repo):
                found=[str(e.guards[-1][0]) if e.guards else "unconditional" for e in sm])
         call = [e for e in ev2.events if e.kind == "call" and (call_name(e.value.as_atom() or ()) or "").endswith("marching_cubes")]
         okc = bool(call) and dict(call[0].extra["kwargs"]).get("gradient_direction") is not None and \
-            string_value(dict(call[0].extra["kwargs"])["gradient_direction"]) == "descent" and call[0].extra["args"][1].key() == "isovalue"
+            string_value(dict(call[0].extra["kwargs"])["gradient_direction"]) == "descent" and \
+            (call[0].extra["args"][1] if len(call[0].extra["args"]) > 1 else dict(call[0].extra["kwargs"]).get("level", P.const(-1))).key() == "isovalue"
         chk.ob("R06.5", SF, q2, "the mesher is run at the requested isovalue with descent orientation (density / weight is larger inside)", okc,
                fingerprint=f"{q2}:call")
         # the field is the density / weight at EVERY grid point: one evaluation over the whole grid, reshaped (a field filled only where a
@@ -748,19 +768,38 @@ def r06_7(chk, repo):
         kw = dict(tm[-1].extra["kwargs"])
         owners = set()
         okk = True
-        for k in ("vertices", "faces", "normals"):
-            v = kw.get(k)
+        # the fields of the isosurface record, by name or by their position in the namedtuple (iso.vertices == iso[0])
+        try:
+            nt = repo.module(SF).toplevel_assign("IsosurfaceMesh")
+            fields = nt.args[1].value.split() if isinstance(nt, ast.Call) and len(nt.args) > 1 and isinstance(nt.args[1], ast.Constant) else []
+        except Exception:      # noqa: BLE001
+            fields = []
+
+        def field_of(v):
             a = v.as_atom() if v is not None else None
-            if not (a and a[0] == "attr" and a[2] == k):
+            if a and a[0] == "attr":
+                return a[2], a[1]
+            if a and a[0] == "sub" and len(a[2]) == 1 and a[2][0].const_value() is not None and 0 <= int(a[2][0].const_value()) < len(fields):
+                return fields[int(a[2][0].const_value())], a[1]
+            return None, None
+        for k in ("vertices", "faces", "normals"):
+            fname, owner = field_of(kw.get(k))
+            if fname != k:
                 okk = False
             else:
-                owners.add(a[1].key())
+                owners.add(owner.key())
         chk.ob("R06.7", rel, q, "vertices, faces and normals of one and the same isosurface object go into the mesh", okk and len(owners) == 1,
                fingerprint="same-iso", found={k: str(v) for k, v in kw.items()})
         prop = [v for k, v in ev.defs.items() if k[1] == "prop"]
         col = [v for k, v in ev.defs.items() if k[1] == "color"]
-        okc = bool(prop) and bool(owners) and prop[-1].key().startswith(f"{next(iter(owners))}.vertex_prop[") and bool(col) and \
+        own = next(iter(owners)) if owners else "?"
+        vp = [f"{own}.vertex_prop["] + ([f"{own}[{fields.index('vertex_prop')}]["] if "vertex_prop" in fields else [])
+        okc = bool(prop) and bool(owners) and prop[-1].key().startswith(tuple(vp)) and bool(col) and \
             "property_to_color($prop" in col[-1].key() and kw.get("vertex_colors") is not None and kw["vertex_colors"].key() == "$color" + ("" if len(col) == 1 else f"'{len(col) - 1}")
+        if not okc and bool(owners) and bool(col) and kw.get("vertex_colors") is not None and kw["vertex_colors"].key() == "$color" + ("" if len(col) == 1 else f"'{len(col) - 1}"):
+            # the property handed to the colour map without a local of its own
+            ca_ = col[-1].as_atom()
+            okc = bool(ca_ and ca_[0] == "call" and (call_name(ca_) or "").endswith("property_to_color") and ca_[2] and ca_[2][0].key().startswith(tuple(vp)))
         chk.ob("R06.7", rel, q, "vertex colours are computed from a vertex property of that same object", okc, fingerprint="colour",
                found=f"prop={prop[-1] if prop else None} colour={kw.get('vertex_colors')}")
 
